@@ -233,6 +233,20 @@ pub fn run(tier: &str) -> i32 {
                 acc.violate(&format!("environment:{}", c.name), format!("{}: differs under {}", c.name, en), replay(format!("differs under {}", en), &base.out, &o.out));
             }
         }
+        // ---- history inside one invocation: the data files given in the opposite order (what was evaluated earlier must not
+        //      matter to a later file's part of the output); plain outputs only, compared as multisets of lines
+        let dpos: Vec<usize> = c.argv.iter().enumerate().filter(|(_, a)| *a == "-d").map(|(k, _)| k + 1).collect();
+        if dpos.len() >= 2 && c.cmp == "lines" {
+            let mut rev = c.argv.clone();
+            for (a, b) in dpos.iter().zip(dpos.iter().rev()) {
+                rev[*a] = c.argv[*b].clone();
+            }
+            let o = cli_proc(&rev, &c.stdin, &[("LD_PRELOAD".into(), shim.clone()), ("VERIF_HASH_SEED".into(), "1".into())], None, 20_000);
+            acc.traces += 1;
+            if o.status != base.status || normalise(&o.out, c.cmp) != nb {
+                acc.violate(&format!("data-order-history:{}", c.name), format!("{}: the output for the same files differs when the data files are given in the opposite order", c.name), replay("opposite data order differs".into(), &base.out, &o.out));
+            }
+        }
         // ---- in-process history: the same invocation 5 times on fresh threads, interleaved with unrelated evaluations
         if c.argv[0] != "rulegen" {
             let mut outs: Vec<(i32, Vec<String>)> = vec![];
